@@ -193,12 +193,23 @@ def build_harness(target="dirkdrv"):
         return _built[target]
     os.makedirs(BUILD, exist_ok=True)
     hdir = os.path.join(VERIF, "harness")
-    shutil.copy(os.path.join(REPO, "go.sum"), os.path.join(hdir, "go.sum"))
-    out = os.path.join(BUILD, target)
-    p = subprocess.run(["go1.26", "build", "-tags", "verif", "-o", out, "./cmd/" + target], cwd=hdir, env=GOENV,
-                       stdout=subprocess.PIPE, stderr=subprocess.STDOUT, text=True)
-    if p.returncode != 0:
-        raise Inconclusive("harness build failed (does /repo still compile?):\n" + p.stdout[-3000:])
+    import fcntl
+    with open(os.path.join(BUILD, ".lock"), "w") as lk:
+        fcntl.flock(lk, fcntl.LOCK_EX)      # several checks may run at the same time
+        src = open(os.path.join(REPO, "go.sum")).read()
+        dst = os.path.join(hdir, "go.sum")
+        if not os.path.exists(dst) or open(dst).read() != src:
+            with open(dst + ".tmp", "w") as fh:
+                fh.write(src)
+            os.replace(dst + ".tmp", dst)
+        # build into a private file, then rename: a running check keeps executing its own copy
+        out = os.path.join(BUILD, "%s.%d" % (target, os.getpid()))
+        p = subprocess.run(["go1.26", "build", "-tags", "verif", "-o", out, "./cmd/" + target], cwd=hdir, env=GOENV,
+                           stdout=subprocess.PIPE, stderr=subprocess.STDOUT, text=True)
+        if p.returncode != 0:
+            raise Inconclusive("harness build failed (does /repo still compile?):\n" + p.stdout[-3000:])
+    import atexit
+    atexit.register(lambda f=out: os.path.exists(f) and os.remove(f))
     _built[target] = out
     return out
 
@@ -208,11 +219,13 @@ def build_dirk():
     if "dirk" in _built:
         return _built["dirk"]
     os.makedirs(BUILD, exist_ok=True)
-    out = os.path.join(BUILD, "dirk")
+    out = os.path.join(BUILD, "dirk.%d" % os.getpid())
     p = subprocess.run(["go", "build", "-o", out, "."], cwd=REPO, env=GOENV,
                        stdout=subprocess.PIPE, stderr=subprocess.STDOUT, text=True)
     if p.returncode != 0:
         raise Inconclusive("dirk build failed:\n" + p.stdout[-3000:])
+    import atexit
+    atexit.register(lambda f=out: os.path.exists(f) and os.remove(f))
     _built["dirk"] = out
     return out
 
